@@ -150,3 +150,102 @@ refactor("c02-getter-local", "C02", (OB, "    pub fn bid_vol(&self) -> Vol {\n  
 refactor("c02-level1-reorder", "C02", (OB, """        let (bid_touch_vol, bid_touch_orders) = self.bid_best_vol_and_orders();
         let (ask_touch_vol, ask_touch_orders) = self.ask_best_vol_and_orders();""", """        let (ask_touch_vol, ask_touch_orders) = self.ask_best_vol_and_orders();
         let (bid_touch_vol, bid_touch_orders) = self.bid_best_vol_and_orders();"""))
+
+# ------------------------------------------------------------------------------- C01
+mutant("c01-bid-loop-strict", "C01", (OB, "(order_entry.order.price >= self.ask_side.best_price())", "(order_entry.order.price > self.ask_side.best_price())"), expect="K4-loop")
+mutant("c01-ask-loop-strict", "C01", (OB, "(order_entry.order.price <= self.bid_side.best_price())", "(order_entry.order.price < self.bid_side.best_price())"), expect="K4-loop")
+mutant("c01-trade-price-aggressor", "C01", (OB, "price: pass_order.price,", "price: agg_order.price,"), expect="record")
+mutant("c01-first-to-last", "C01", (SIDE, "        self.orders.first_key_value().map(|(_, v)| *v)", "        self.orders.last_key_value().map(|(_, v)| *v)"), expect="lockstep")
+mutant("c01-key-time-arrival", ["C01", "C06"], (OB, "let key: OrderKey = get_ask_key(self.queue_time(), new_price);", "let key: OrderKey = get_ask_key(order_entry.order.arr_time, new_price);"), expect=["K3-queue-time", "fresh-key-time"])
+mutant("c01-key-time-stale", ["C01"], (OB, "let key: OrderKey = get_bid_key(self.queue_time(), new_price);", "let key: OrderKey = get_bid_key(order_entry.key.2, new_price);"), expect="K3-queue-time")
+mutant("c01-bid-key-not-inverted", "C01", (SIDE, "    (Side::Bid, Price::MAX - price, t)", "    (Side::Bid, price, t)"), expect="wrapper")
+mutant("c01-remainder-start-vol", ["C01", "C02"], (OB, "                .insert_order(key, order_entry.order.order_id, order_entry.order.vol)\n        }\n    }\n\n    /// Place a buy market",
+       "                .insert_order(key, order_entry.order.order_id, order_entry.order.start_vol)\n        }\n    }\n\n    /// Place a buy market"), expect="insert")
+mutant("c01-loop-extra-exit", "C01", (OB, """                    self.trade_vol += trade_vol;
+                    if match_order.order.status == Status::Filled {
+                        self.ask_side.remove_order(match_order.key, trade_vol);
+                    } else {""", """                    self.trade_vol += trade_vol;
+                    if match_order.order.status == Status::Filled {
+                        self.ask_side.remove_order(match_order.key, trade_vol);
+                        if self.trade_vol > 1_000_000 {
+                            break;
+                        }
+                    } else {"""), expect="K4-loop")
+mutant("c01-fill-not-min", ["C01", "C03"], (OB, "    let trade_vol = min(agg_order.vol, pass_order.vol);", "    let trade_vol = min(agg_order.vol, pass_order.start_vol);"), expect="record")
+mutant("c01-stale-price-key", ["C01"], (OB, "let key: OrderKey = get_ask_key(self.queue_time(), new_price);", "let key: OrderKey = (Side::Ask, order_entry.key.1, self.queue_time());"), expect="K1-key-price")
+refactor("c01-loop-and-and", ["C01", "C03", "C13"], (OB, "while (order_entry.order.vol > 0) & (order_entry.order.price >= self.ask_side.best_price())", "while 0 < order_entry.order.vol && self.ask_side.best_price() <= order_entry.order.price"))
+
+# ------------------------------------------------------------------------------- C05
+mutant("c05-raw-clock-key", ["C05"], (OB, "let key: OrderKey = (Side::Bid, order_entry.key.1, self.queue_time());", "let key: OrderKey = (Side::Bid, order_entry.key.1, self.t);"), expect="key-injective")
+mutant("c05-stamp-not-advanced", ["C05", "C01"], (OB, "        self.next_queue_time = queue_time + 1;", "        self.next_queue_time = queue_time;"), expect="stamp")
+mutant("c05-stamp-min", ["C05"], (OB, "let queue_time = self.t.max(self.next_queue_time);", "let queue_time = self.t.min(self.next_queue_time);"), expect="stamp")
+mutant("c05-loader-counter-dropped", ["C05"], (OB, "                next_queue_time = next_queue_time.max(key.2 + 1);", "                next_queue_time = next_queue_time.max(key.2);"), expect="loader")
+mutant("c05-loader-counter-active-only-guard", ["C05"], (OB, "            if order.status != Status::New {\n                next_queue_time", "            if order.status == Status::Filled {\n                next_queue_time"), expect="loader")
+mutant("c05-counter-reset", ["C05"], (OB, "        self.trade_vol = 0;\n    }", "        self.trade_vol = 0;\n        self.next_queue_time = 0;\n    }"), expect="stamp")
+mutant("c05-map-key-drops-time", ["C05", "C02"], (SIDE, "        self.orders.insert((key.1, key.2), idx);", "        self.orders.insert((key.1, key.2 / 1_000_000), idx);"), expect="key")
+
+# ------------------------------------------------------------------------------- C06
+mutant("c06-lt-to-le", "C06", (OB, "                    if v < order_entry.order.vol {", "                    if v <= order_entry.order.vol {"), expect="in-place")
+mutant("c06-reduction-through-replace", "C06", (OB, """                        let reduce_vol = order_entry.order.vol - v;
+                        self.reduce_order_vol(&mut order_entry, reduce_vol);""", """                        let p = order_entry.order.price;
+                        self.replace_order(&mut order_entry, p, v)"""), expect="dispatch")
+mutant("c06-replace-no-rematch", ["C06", "C02"], (OB, """        if self.trading {
+            match order_entry.key.0 {
+                Side::Bid => self.match_bid(order_entry),
+                Side::Ask => self.match_ask(order_entry),
+            }
+        }
+""", ""), expect=["never-crossed", "replace"])
+mutant("c06-price-arg-swapped", "C06", (OB, "                (Some(p), Some(v)) => self.replace_order(&mut order_entry, p, v),", "                (Some(p), Some(v)) => self.replace_order(&mut order_entry, v, p),"), expect="replace")
+mutant("c06-arr-time-reset", "C06", (OB, "        order_entry.order.vol = new_vol;\n", "        order_entry.order.vol = new_vol;\n        order_entry.order.arr_time = self.t;\n"), expect="identity")
+mutant("c06-price-kept-uses-start", "C06", (OB, "                    let v = order_entry.order.vol;\n                    self.replace_order(&mut order_entry, p, v);", "                    let v = order_entry.order.start_vol;\n                    self.replace_order(&mut order_entry, p, v);"), expect="replace")
+
+# ------------------------------------------------------------------------------- C12
+mutant("c12-modify-grid-check-removed", "C12", (OB, """        if let Some(p) = new_price {
+            if p % self.tick_size != 0 {
+                return;
+            }
+        }
+""", ""), expect="grid")
+mutant("c12-bid-guard-disabled", "C12", (OB, """            (Side::Bid, Some(p)) => {
+                if p % self.tick_size != 0 {""", """            (Side::Bid, Some(p)) => {
+                if p % self.tick_size != 0 && p < self.tick_size {"""), expect="create")
+mutant("c12-env-push-before-check", "C12", (ENV, """        let order_id = self.order_book.create_order(side, vol, trader_id, price)?;
+        self.transactions.push(Event::New { order_id });
+        Ok(order_id)""", """        let order_id = self.order_book.create_order(side, vol, trader_id, price);
+        self.transactions.push(Event::New { order_id: *order_id.as_ref().unwrap_or(&0) });
+        order_id"""), expect="forward")
+mutant("c12-grid-check-other-tick", "C12", (OB, """        if let Some(p) = new_price {
+            if p % self.tick_size != 0 {""", """        if let Some(p) = new_price {
+            if p % 1 != 0 {"""), expect="grid")
+
+# ------------------------------------------------------------------------------- C13
+mutant("c13-replace-guard-removed", ["C13"], (OB, """        if self.trading {
+            match order_entry.key.0 {
+                Side::Bid => self.match_bid(order_entry),""", """        if self.trading || order_entry.order.vol > 0 {
+            match order_entry.key.0 {
+                Side::Bid => self.match_bid(order_entry),"""), expect="dominance")
+mutant("c13-limit-guard-removed", ["C13"], (OB, "        if self.trading {\n            self.match_bid(order_entry);\n        }", "        self.match_bid(order_entry);"), expect="dominance")
+mutant("c13-market-matched-when-off", ["C13"], (OB, """            false => {
+                order_entry.order.status = Status::Rejected;
+                order_entry.order.end_time = self.t;
+            }
+        }
+    }
+
+    /// Place a sell limit""", """            false => {
+                self.match_bid(order_entry);
+                if order_entry.order.status != Status::Filled {
+                    order_entry.order.status = Status::Rejected;
+                    order_entry.order.end_time = self.t;
+                }
+            }
+        }
+    }
+
+    /// Place a sell limit"""), expect="dominance")
+mutant("c13-market-disable-take-one", ["C13", "C14"], (MKT, """    pub fn disable_trading(&mut self) {
+        for book in self.order_books.iter_mut() {""", """    pub fn disable_trading(&mut self) {
+        for book in self.order_books.iter_mut().take(1) {"""), expect="fan-out")
+mutant("c13-env-enable-calls-disable", ["C13"], (ENV, "    pub fn enable_trading(&mut self) {\n        self.order_book.enable_trading();", "    pub fn enable_trading(&mut self) {\n        self.order_book.disable_trading();"), expect="fan-out")
+mutant("c13-disable-resets-counter", ["C13"], (OB, "        self.trading = false;\n", "        self.trading = false;\n        self.trade_vol = 0;\n"), expect="toggle")
